@@ -464,6 +464,10 @@ def path_networks():
                 rest -= take
             table[d] = cost
         out.append((f"{k}_disjoint_paths{'_with_cross_arcs' if cross else ''}", n, arcs, 0, 1, table))
+    # a bare chain 0..n-1 of unit cost (capacity 2) and one direct arc 0 -> n-1 of cost 100: the cheapest path has n-1 arcs
+    for n in (8, 9, 12, 16, 33):
+        arcs = [(i, i + 1, 2, 1) for i in range(n - 1)] + [(0, n - 1, 2, 100)]
+        out.append((f"chain_{n}_with_dear_direct_arc", n, arcs, 0, n - 1, {0: 0, 1: n - 1, 2: 2 * (n - 1), 3: 2 * (n - 1) + 100, 4: 2 * (n - 1) + 200, 5: None}))
     # dense networks on 8-12 nodes: a chain 0..n-1 of unit cost and capacity 3, every shortcut (i, j>i+1) at cost 9 per hop
     # skipped (never worth taking), some of them twice, and - listed last - a direct arc 0 -> n-1 of cost 1 and capacity 1
     for n, extra in ((8, 4), (8, 5), (8, 12), (10, 3), (12, 0)):
